@@ -180,38 +180,60 @@ func BridgeScript(h *Hist, wraps, unwraps int) error {
 // OwnedTokenAddress is the foreign-chain address of the bridge-owned token's pair.
 const OwnedTokenAddress = "0x7fbdb2315678afecb367f032d93f642f64180aa3"
 
-func ownedPairScript(h *Hist, admin types.Address, guardians []types.Address, produce func(int) error) error {
-	issuer := guardians[0]
+// issueAndSpread: issuer issues a mintable, burnable token, receives the initial supply and sends a part of it to the others
+// (their receives are left to the caller or to the history).
+func issueAndSpread(h *Hist, issuer types.Address, others []types.Address, name, symbol string, produce func(int) error) (types.ZenonTokenStandard, error) {
+	var zts types.ZenonTokenStandard
 	if h.Balance(issuer, types.ZnnTokenStandard).Cmp(constants.TokenIssueAmount) < 0 {
-		return fmt.Errorf("issuer cannot pay the issue fee")
+		return zts, fmt.Errorf("issuer cannot pay the issue fee")
 	}
 	before := map[types.ZenonTokenStandard]bool{}
 	for _, t := range h.TokenList() {
 		before[t.TokenStandard] = true
 	}
-	data := definition.ABIToken.PackMethodPanic(definition.IssueMethodName, "Bridge-Owned", "BOWN", "verif.test", big.NewInt(1000000), big.NewInt(1000000000), uint8(0), true, true, false)
-	if _, err := h.Submit(&nom.AccountBlock{Address: issuer, ToAddress: types.TokenContract, TokenStandard: types.ZnnTokenStandard, Amount: new(big.Int).Set(constants.TokenIssueAmount), Data: data}, "issue the bridge-owned token"); err != nil {
-		return err
+	data := definition.ABIToken.PackMethodPanic(definition.IssueMethodName, name, symbol, "verif.test", big.NewInt(1000000), big.NewInt(1000000000), uint8(0), true, true, false)
+	if _, err := h.Submit(&nom.AccountBlock{Address: issuer, ToAddress: types.TokenContract, TokenStandard: types.ZnnTokenStandard, Amount: new(big.Int).Set(constants.TokenIssueAmount), Data: data}, "issue token "+symbol); err != nil {
+		return zts, err
 	}
 	if err := produce(3); err != nil {
-		return err
+		return zts, err
 	}
-	var zts types.ZenonTokenStandard
 	found := false
 	for _, t := range h.TokenList() {
-		if !before[t.TokenStandard] && t.Owner == issuer && t.TokenSymbol == "BOWN" {
+		if !before[t.TokenStandard] && t.Owner == issuer && t.TokenSymbol == symbol {
 			zts, found = t.TokenStandard, true
 		}
 	}
 	if !found {
-		return fmt.Errorf("token not issued")
+		return zts, fmt.Errorf("token not issued")
 	}
-	// the issuer receives the initial supply and spreads a part of it
 	for _, hsh := range h.Unreceived(issuer) {
 		_, _ = h.Submit(&nom.AccountBlock{BlockType: nom.BlockTypeUserReceive, Address: issuer, FromBlockHash: hsh}, "issuer receives")
 	}
-	for i := 1; i < len(guardians); i++ {
-		_, _ = h.Submit(&nom.AccountBlock{Address: issuer, ToAddress: guardians[i], TokenStandard: zts, Amount: big.NewInt(100000)}, "spread the bridge-owned token")
+	for _, o := range others {
+		if o != issuer {
+			_, _ = h.Submit(&nom.AccountBlock{Address: issuer, ToAddress: o, TokenStandard: zts, Amount: big.NewInt(100000)}, "spread token "+symbol)
+		}
+	}
+	if err := produce(2); err != nil {
+		return zts, err
+	}
+	for _, o := range others {
+		if o != issuer {
+			for _, hsh := range h.Unreceived(o) {
+				_, _ = h.Submit(&nom.AccountBlock{BlockType: nom.BlockTypeUserReceive, Address: o, FromBlockHash: hsh}, "holder receives")
+			}
+		}
+	}
+	h.RefreshPools()
+	return zts, nil
+}
+
+func ownedPairScript(h *Hist, admin types.Address, guardians []types.Address, produce func(int) error) error {
+	issuer := guardians[0]
+	zts, err := issueAndSpread(h, issuer, guardians, "Bridge-Owned", "BOWN", produce)
+	if err != nil {
+		return err
 	}
 	upd := definition.ABIToken.PackMethodPanic(definition.UpdateTokenMethodName, zts, types.BridgeContract, true, true)
 	if _, err := h.Submit(&nom.AccountBlock{Address: issuer, ToAddress: types.TokenContract, TokenStandard: types.ZnnTokenStandard, Amount: big.NewInt(0), Data: upd}, "hand the token to the bridge contract"); err != nil {
@@ -219,11 +241,6 @@ func ownedPairScript(h *Hist, admin types.Address, guardians []types.Address, pr
 	}
 	if err := produce(2); err != nil {
 		return err
-	}
-	for i := 1; i < len(guardians); i++ {
-		for _, hsh := range h.Unreceived(guardians[i]) {
-			_, _ = h.Submit(&nom.AccountBlock{BlockType: nom.BlockTypeUserReceive, Address: guardians[i], FromBlockHash: hsh}, "guardian receives")
-		}
 	}
 	delay := uint32([]int{1, 2, 5}[h.C.Pick("bridge.ownedDelay", 3)])
 	for i := 0; i < 2; i++ {
@@ -335,8 +352,17 @@ func LiquidityScript(h *Hist) error {
 	case 3:
 		qsrShares = []uint32{10001, 4294967295}
 	}
+	// the stakeable tokens: ZNN and QSR themselves (accepted by the contract; stakes then share a balance with the reward
+	// pool) or, as on the live network, a liquidity-pool token issued for the purpose next to QSR
+	stakeable := []string{types.ZnnTokenStandard.String(), types.QsrTokenStandard.String()}
+	if h.C.Weighted("liq.lpToken", 1, 1) == 1 {
+		if zts, err := issueAndSpread(h, guardians[1], guardians, "Liquidity-Pool", "LPT", produce); err == nil {
+			stakeable[0] = zts.String()
+			h.C.Class("liquidity-pool-token-stakeable")
+		}
+	}
 	for i := 0; i < 2; i++ {
-		if err := call("setTokenTuple", definition.SetTokenTupleMethodName, []string{types.ZnnTokenStandard.String(), types.QsrTokenStandard.String()},
+		if err := call("setTokenTuple", definition.SetTokenTupleMethodName, stakeable,
 			znnShares, qsrShares, []*big.Int{big.NewInt(1000), big.NewInt(1000)}); err != nil {
 			return err
 		}
@@ -543,9 +569,25 @@ func intentLiqStake(h *Hist) bool {
 	c := h.C
 	from := h.user("lstake.from")
 	z := []types.ZenonTokenStandard{types.ZnnTokenStandard, types.QsrTokenStandard}[c.Pick("lstake.token", 2)]
+	// mostly a token the administrator listed as stakeable
+	if li, err := definition.GetLiquidityInfo(h.A.Chain.GetFrontierAccountStore(types.LiquidityContract).Storage()); err == nil && li != nil && len(li.TokenTuples) > 0 && c.Weighted("lstake.listed", 1, 4) == 1 {
+		if zz, err := types.ParseZTS(li.TokenTuples[c.Pick("lstake.tuple", len(li.TokenTuples))].TokenStandard); err == nil {
+			z = zz
+		}
+	}
 	amt := big.NewInt(int64([]int{999, 1000, 50000, 100000000}[c.Pick("lstake.amt", 4)]))
 	if h.Balance(from, z).Cmp(amt) < 0 {
-		return false
+		// somebody who can pay
+		found := false
+		for _, u := range h.Users {
+			if h.Balance(u, z).Cmp(amt) >= 0 {
+				from, found = u, true
+				break
+			}
+		}
+		if !found {
+			return false
+		}
 	}
 	units := int64(c.Int("lstake.units", 1, 12))
 	if c.Weighted("lstake.short", 3, 1) == 0 {
